@@ -42,7 +42,8 @@ type vpConn struct {
 	readsUnarmed  int
 	zeroDeadlines int
 	// event order (C07, C12)
-	log *vpEventLog
+	log  *vpEventLog
+	hook func() // called at every Read and Close
 }
 
 type vpEventLog struct {
@@ -67,6 +68,9 @@ func (c *vpConn) Read(p []byte) (int, error) {
 	}
 	c.armed = false
 	c.log.add("read")
+	if c.hook != nil {
+		c.hook()
+	}
 	end := len(c.in)
 	if c.cut >= 0 && c.cut < end {
 		end = c.cut
@@ -106,6 +110,9 @@ func (c *vpConn) Write(p []byte) (int, error) {
 func (c *vpConn) Close() error {
 	c.closes++
 	c.log.add("close")
+	if c.hook != nil {
+		c.hook()
+	}
 	return nil
 }
 
